@@ -147,6 +147,18 @@ func Finish(verifDir string, res *Result, tier string, seed int64, started time.
 			if matches(f, prop, v) {
 				knownHits[f.Id]++
 				hit = true
+				// developer aid: VERIF_WRITE_KNOWN=1 stores the first witness of each known finding
+				// as its minimal_input file (known_findings.json itself is never written)
+				if os.Getenv("VERIF_WRITE_KNOWN") != "" && knownHits[f.Id] == 1 && f.MinimalInput != "" {
+					mp := filepath.Join(verifDir, f.MinimalInput)
+					if _, err := os.Stat(mp); err != nil {
+						_ = os.MkdirAll(filepath.Dir(mp), 0o755)
+						body := map[string]any{"property": prop, "finding": f.Id, "kind": v.Kind, "where": v.Where, "detail": v.Detail, "case": v.Case}
+						if b, err := json.MarshalIndent(body, "", " "); err == nil {
+							_ = os.WriteFile(mp, b, 0o644)
+						}
+					}
+				}
 				break
 			}
 		}
@@ -185,7 +197,7 @@ func Finish(verifDir string, res *Result, tier string, seed int64, started time.
 				}
 			}
 		}
-		if i < 40 {
+		if i < 40 || os.Getenv("VERIF_VERBOSE") != "" {
 			fmt.Printf("VIOLATION property=%s replay=%s kind=%s %s\n", prop, path, v.Kind, oneLine(v.Detail))
 		}
 	}
